@@ -355,6 +355,39 @@ func FieldOptions(t *rapid.T, f *ir.File, c *ir.Config, o KOpts) {
 	// name overrides
 	ovr := 0
 	c.NameOverrides = map[string]string{}
+	// The attribute name of a field that is excluded everywhere (Message.Field form) is free again: now and then a later
+	// sibling takes it over through name_overrides ("legacy `version` excluded, `api_version` renamed to version").
+	if !o.NoExclude {
+		for _, m := range f.Messages {
+			for i, fl := range m.Fields {
+				if fl.Embed || !ir.Has(c.ExcludeFields, m.Name+"."+fl.Name) || rapid.IntRange(0, 2).Draw(t, "reusename") != 0 {
+					continue
+				}
+				name := Snake(fl.Name)
+				if fl.JSONTag != nil {
+					if n := strings.Split(*fl.JSONTag, ",")[0]; n != "" && n != "-" {
+						name = n
+					}
+				}
+				for _, sib := range m.Fields[i+1:] {
+					sk := m.Name + "." + sib.Name
+					if sib.Embed || ir.Has(c.ExcludeFields, sk) {
+						continue
+					}
+					fullExcluded := false
+					for _, oc := range occ {
+						if oc.TypeKey == sk && isExcluded(oc) {
+							fullExcluded = true
+						}
+					}
+					if !fullExcluded {
+						c.NameOverrides[sk] = name
+					}
+					break
+				}
+			}
+		}
+	}
 	for i, oc := range occ {
 		if oc.Embed || isExcluded(oc) || taken(strMap(c.NameOverrides), oc) {
 			continue
